@@ -1,6 +1,8 @@
 import BFL.Driver.Proto
 import BFL.Core.GaussJordan
 import BFL.Model.KF
+import BFL.Model.KFLik
+import BFL.Driver.GPF
 /-
 Driver entries for the Kalman steps (C01, C02), executed exactly over `Rat`.
 
@@ -101,11 +103,27 @@ def kfinfo : R String := do
     if outs.any Option.isNone then pure "inv-cert-fail" else
     pure (join ("ok" :: outs.flatMap fun o => o.getD []))
 
+/-- `kfLikelihood` executed over `Rat` (field operations, determinant and certified inverse exact;
+    `log`/`exp` through `Float`, see `DriverGPF.ratTransc`):
+      kflik n m k H R y means covs   ->  "ok" one likelihood per component -/
+def kflik : R String := do
+  let n ← nat; let m ← nat; let k ← nat
+  let H ← matCM rat m n
+  let Rm ← matCM rat m m
+  let y ← vec rat m
+  let b ← readGM n k
+  done
+  let inv : InvFn Rat := fun _ A => DriverGPF.invOr A
+  let outs := (List.finRange k).map fun i =>
+    ratStr (@kfLikelihood Rat _ _ _ _ _ _ _ _ _ DriverGPF.ratTransc n m k inv H Rm y b i)
+  pure (join ("ok" :: outs))
+
 def handle (op : String) (args : List String) : Option String :=
   match op with
   | "kfp" => some ((run kfp args).getD "bad-args")
   | "kfc" => some ((run kfc args).getD "bad-args")
   | "kfinfo" => some ((run kfinfo args).getD "bad-args")
+  | "kflik" => some ((run kflik args).getD "bad-args")
   | _ => none
 
 end BFL.DriverKF
